@@ -49,6 +49,10 @@ impl State {
         }
     }
 
+    fn is_received(&self) -> bool {
+        !matches!(self, State::Empty)
+    }
+
     fn could_expire(&self, now: Instant) -> bool {
         match self {
             State::Empty => true,
@@ -166,7 +170,7 @@ impl RcvdJournal {
         let delay = VarInt::from_u64(delay).unwrap();
         let mut first_range = 0_u32;
         for (_, s) in pkts.by_ref() {
-            if s.track_packet_in_ack_frame(pn) {
+            if s.is_received() {
                 first_range += 1;
             } else {
                 break;
@@ -205,7 +209,7 @@ impl RcvdJournal {
                 (1, 0, false),
                 |(gap, ack, last_is_acked), (_pktno, state)| {
                     let range_count = ranges.len();
-                    match (last_is_acked, state.track_packet_in_ack_frame(pn)) {
+                    match (last_is_acked, state.is_received()) {
                         // 本range结束了，看看是否放得下本range，开始新的range
                         (true, false) => {
                             // 修正
@@ -220,15 +224,15 @@ impl RcvdJournal {
                             }
                             capacity -= size;
                             ranges.push((gap, ack));
-                            Continue((1, 0, state.track_packet_in_ack_frame(pn)))
+                            Continue((1, 0, state.is_received()))
                         }
                         // 如果当前是ack，增加ack，保持gap不变
                         (false | true, true) => {
-                            Continue((gap, ack + 1, state.track_packet_in_ack_frame(pn)))
+                            Continue((gap, ack + 1, state.is_received()))
                         }
                         // 当前和之前都是gap，增加gap
                         (false, false) => {
-                            Continue((gap + 1, ack, state.track_packet_in_ack_frame(pn)))
+                            Continue((gap + 1, ack, state.is_received()))
                         }
                     }
                 },
@@ -243,6 +247,19 @@ impl RcvdJournal {
             if capacity >= size {
                 // capacity -= size; unnecessary, never read latter
                 ranges.push((gap, ack));
+            }
+        }
+        drop(pkts);
+        // only the records the frame really lists are marked as reported in packet `pn`
+        let covered = first_range.into_u64()
+            + ranges
+                .iter()
+                .map(|(gap, ack): &(VarInt, VarInt)| gap.into_u64() + 2 + ack.into_u64())
+                .sum::<u64>();
+        let smallest = largest.into_u64() - covered;
+        for (pktno, s) in self.queue.enumerate_mut() {
+            if pktno >= smallest && pktno <= largest.into_u64() {
+                s.track_packet_in_ack_frame(pn);
             }
         }
         self.packet_include_ack.insert(pn);
